@@ -653,6 +653,27 @@ def check_c08(tier, seed):
                 res.violations.append(verdict_witness(res, c, "rejected: %s" % json.dumps(o["errors"])[:600], "must-accept-rejected:" + rule_class(c.rule)))
             if len(res.samples) < 10 and res.evaluations % 97 == 0:
                 res.samples.append({"group": gname, "declaration": c.body, "expected": c.expect, "observed": o["verdict"], "errors": o["errors"][:1]})
+    # ---- the same rules when the declaring crate is built as a *dependency* of another crate (cargo does not set CARGO_PRIMARY_PACKAGE for it, caps lints ...):
+    #      every rejection rule with its neighbours, all features
+    dep_cases = [c for c in corpus_verdict.build(tier, seed, cratebuild.ALL_FEATURES, "asdep") if c.rule.split(":")[0] in ("R1", "R2", "R3", "R4", "R5", "R6", "R7", "R8", "R9", "R10", "R11", "R12", "R13", "R14")
+                 and c.expect != "UNSPECIFIED"]
+    vcd = verdict.VerdictCrate("c08-asdep-%s" % tier, cratebuild.ALL_FEATURES, extra_deps=FULL_DEPS, as_dependency=True)
+    try:
+        outd, infod = verdict.run_verdicts(vcd, dep_cases, log=log)
+        nd = 0
+        for c in dep_cases:
+            o = outd.get(c.id)
+            if o is None:
+                continue
+            nd += 1
+            res.evaluations += 1
+            if c.expect == "MUST_REJECT" and o["verdict"] == "accepted":
+                res.violations.append(verdict_witness(res, c, "accepted when built as a dependency", "as-dependency:must-reject-accepted:" + rule_class(c.rule)))
+            elif c.expect == "MUST_ACCEPT" and o["verdict"] == "rejected":
+                res.violations.append(verdict_witness(res, c, "rejected when built as a dependency: %s" % json.dumps(o["errors"])[:500], "as-dependency:must-accept-rejected:" + rule_class(c.rule)))
+        res.guard("rule_cases_built_as_dependency", nd, 300)
+    except Inconclusive as e:
+        res.inconclusive.append("as-dependency build: " + str(e))
     # ---- generated unit tests
     gt = corpus_verdict.generated_tests_cases()
     gdir = os.path.join(WORK, "c08-gentests")
@@ -914,6 +935,27 @@ def check_c05(tier, seed):
             res.violations.append(v)
         if audited == 3:
             res.samples.append({"audited_module": m["module"], "impls": [(im["trait"], [f["name"] for f in im["fns"]]) for im in m["impls"]][:8]})
+    # the same audit on the expansion produced in a build with debug assertions off (macro crate and user crate alike): a guard that is only
+    # emitted / only runs under `cfg(debug_assertions)` shows as a direct construction outside the whitelist there
+    mods2, err2 = audit.expand_and_audit("c05-audit-nodebug-%s" % tier, modules, expects, cratebuild.ALL_FEATURES, log=log, debug_assertions=False)
+    if err2:
+        res.inconclusive.append("debug-assertions-off expansion: " + err2[:600])
+    else:
+        n2 = 0
+        for m in mods2:
+            tn = m["type_name"]
+            if tn not in expects:
+                continue
+            viol, facts = audit.check_module(m, expects[tn])
+            n2 += 1
+            res.evaluations += facts.get("fns", 0) + 1
+            for x in viol:
+                if x["signature"] == "INCONCLUSIVE":
+                    continue
+                v = {"decl": tn, "signature": "debug-assertions-off:" + x["signature"], "input": m["module"], "observed": x["detail"], "expected": "see rule", "detail": ""}
+                v["replay"] = write_witness(res, v, module_text=next((t for (mn, t) in modules if ("struct %s" % tn) in t), None), kind="expansion")
+                res.violations.append(v)
+        res.guard("expansion_modules_audited_with_debug_assertions_off", n2, min(len(expects), 150))
     regex_without_unicode_probe(res)
     res.guard("expansion_modules_audited", audited, min(len(expects), 150))
     res.guard("expansion_modules_expected", len(expects), 150)
